@@ -312,6 +312,19 @@ def rule_plumb(ctx):
                                      "(seeded at construction)"))
                 else:
                     exc = PLUMB_EXCEPTIONS.get((f.qual, g.name))
+                    # randomness switched off at this site: the callee only draws when
+                    # its ``temperature`` is non-zero, defaults it to 0.0, and the call
+                    # does not pass one
+                    dflt = g.defaults().get("temperature")
+                    if exc is None and isinstance(dflt, ast.Constant) and dflt.value == 0.0:
+                        pos = g.positional
+                        passed_t = any(k.arg == "temperature" for k in call.keywords) or (
+                            "temperature" in pos and pos.index("temperature") < len(args)) or \
+                            "temperature" in res.bound or \
+                            any(k.arg is None for k in call.keywords)
+                        if not passed_t:
+                            exc = ("callee draws random numbers only for temperature != 0; its "
+                                   "default is 0.0 and this site does not pass a temperature")
                     if exc:
                         verdicts.append((g, "exempt", exc))
                     else:
